@@ -1272,5 +1272,135 @@ theorem multistore_dup_forges' (name real forged : Bytes) (ver : Int) :
     multiStoreRun H encKV Fixes.none [⟨name, ver, forged⟩, ⟨name, ver, real⟩] name [forged]
       = .ok [commitHash H encKV [⟨name, ver, real⟩]] := by
   simp [multiStoreRun, Fixes.none, commitHash, infosMap, mapInsert, Bytes.lt_irrefl]
+
+def ka : Bytes := [0x61]
+def kb : Bytes := [0x62]
+def kc : Bytes := [0x63]
+def kd : Bytes := [0x64]
+
+/-- two leaves `a`, `b` -/
+def t2 (va vb : Bytes) : Tree := .inner 1 2 1 kb (.leaf ka va 1) (.leaf kb vb 1)
+
+theorem wf_t2 (va vb : Bytes) : WF (t2 va vb) := by
+  refine WF.inner _ _ _ _ _ _ (by decide) (WF.leaf _ _ _) (WF.leaf _ _ _) ?_ ?_
+  · intro e he; simp [Tree.leaves] at he; subst he; show ka < kb; decide
+  · intro e he; simp [Tree.leaves] at he; subst he; show kb ≤ kb; decide
+
+/-- **Existence forgery on the code as it is** (both child hashes set): for every hash function with
+non-empty outputs, the two-leaf tree `{a, b}` admits an accepted existence proof for the key `c`,
+which it does not store. -/
+theorem value_forged_bothset (hne : HNonEmpty H) (va vb vf : Bytes) :
+    valueOpRun H enc Fixes.none
+      (some ⟨[⟨1, 2, 1, Tree.hash H enc (.leaf ka va 1), PLeaf.hash H enc ⟨kc, H vf, 1⟩⟩], [[]],
+             [⟨kb, H vb, 1⟩, ⟨kc, H vf, 1⟩]⟩) kc [vf]
+      = .ok [Tree.hash H enc (t2 va vb)] ∧ (∀ e ∈ (t2 va vb).leaves, e.1 ≠ kc) := by
+  have h1 : ∀ x, (H x = []) = False := fun x => eq_false (hne x)
+  have c1 : ¬ (kc ≤ kb) := by decide
+  have c2 : kc ≤ kc := by decide
+  constructor
+  · simp [valueOpRun, computeRootHash, Fixes.none, computeHash, pathLoop, pathLeafHash, pathHash, PIN.hash,
+      PLeaf.hash, Tree.hash, h1, isRightmost, verifyItem, searchLeaves, c1, c2, t2]
+  · intro e he; simp [t2, Tree.leaves] at he; rcases he with rfl | rfl
+    · show ka ≠ kc; decide
+    · show kb ≠ kc; decide
+
+/-- three leaves `a`, `b` | `c` -/
+def t3 (va vb vc : Bytes) : Tree := .inner 2 3 1 kc (.inner 1 2 1 kb (.leaf ka va 1) (.leaf kb vb 1)) (.leaf kc vc 1)
+
+/-- **Absence forgery on the code as it is** (both child hashes set): the stored key `c` is "proved"
+absent from `{a, b, c}` with a forged leaf `d`. -/
+theorem absence_forged_bothset (hne : HNonEmpty H) (va vb vc vf : Bytes) :
+    absenceOpRun H enc Fixes.none
+      (some ⟨[⟨2, 3, 1, [], Tree.hash H enc (.leaf kc vc 1)⟩,
+              ⟨1, 2, 1, Tree.hash H enc (.leaf ka va 1), PLeaf.hash H enc ⟨kd, H vf, 1⟩⟩], [[]],
+             [⟨kb, H vb, 1⟩, ⟨kd, H vf, 1⟩]⟩) kc []
+      = .ok [Tree.hash H enc (t3 va vb vc)] ∧ (kc, vc, 1) ∈ (t3 va vb vc).leaves := by
+  have h1 : ∀ x, (H x = []) = False := fun x => eq_false (hne x)
+  have c1 : ¬ (kc < kb) := by decide
+  have c2 : kc ≠ kb := by decide
+  have c3 : kc < kd := by decide
+  constructor
+  · simp [absenceOpRun, computeRootHash, Fixes.none, computeHash, pathLoop, pathLeafHash, pathHash, PIN.hash,
+      PLeaf.hash, Tree.hash, h1, isRightmost, verifyAbsence, absenceLoop, c1, c2, c3, t3]
+  · simp [t3, Tree.leaves]
+
+/-- three leaves `a` | `b`, `c` -/
+def t4 (va vb vc : Bytes) : Tree := .inner 2 3 1 kb (.leaf ka va 1) (.inner 1 2 1 kc (.leaf kb vb 1) (.leaf kc vc 1))
+
+/-- **Absence forgery on the code as it is** (inner path not leftmost): leaves `a` and `c` with the
+path of `c` turning right inside the sibling subtree skip the stored key `b`. -/
+theorem absence_forged_not_leftmost (hne : HNonEmpty H) (va vb vc : Bytes) :
+    absenceOpRun H enc Fixes.none
+      (some ⟨[⟨2, 3, 1, [], Tree.hash H enc (.inner 1 2 1 kc (.leaf kb vb 1) (.leaf kc vc 1))⟩],
+             [[⟨1, 2, 1, Tree.hash H enc (.leaf kb vb 1), []⟩]],
+             [⟨ka, H va, 1⟩, ⟨kc, H vc, 1⟩]⟩) kb []
+      = .ok [Tree.hash H enc (t4 va vb vc)] ∧ (kb, vb, 1) ∈ (t4 va vb vc).leaves := by
+  have h1 : ∀ x, (H x = []) = False := fun x => eq_false (hne x)
+  have c1 : ¬ (kb < ka) := by decide
+  have c2 : kb ≠ ka := by decide
+  have c3 : kb < kc := by decide
+  constructor
+  · simp [absenceOpRun, computeRootHash, Fixes.none, computeHash, pathLoop, pathLeafHash, pathHash, PIN.hash,
+      PLeaf.hash, Tree.hash, h1, isRightmost, verifyAbsence, absenceLoop, c1, c2, c3, t4]
+  · simp [t4, Tree.leaves]
+
+/-- **Existence forgery on the code as it is** (leaf presented as inner node): a one-leaf tree whose
+stored value is the hash preimage of a leaf `(c, vf)` yields an accepted existence proof for `c`. -/
+theorem value_forged_leaf_as_inner (hne : HNonEmpty H) (vf : Bytes) :
+    valueOpRun H enc Fixes.none
+      (some ⟨[⟨0, 1, 1, ka, []⟩], [], [⟨kc, H vf, 1⟩]⟩) kc [vf]
+      = .ok [Tree.hash H enc (.leaf ka (enc 0 1 1 kc (H vf)) 1)] := by
+  have c0 : ka ≠ [] := by decide
+  have c2 : kc ≤ kc := by decide
+  simp [valueOpRun, computeRootHash, Fixes.none, computeHash, pathLeafHash, pathHash, PIN.hash,
+      PLeaf.hash, Tree.hash, c0, verifyItem, searchLeaves, c2]
+
+/-- the strict verifier rejects each of these proofs -/
+theorem forgeries_rejected_strict (hne : HNonEmpty H) (fx : Fixes) (hfx : fx.strictNodes = true) (va vb vc vf : Bytes) :
+    (∃ e, valueOpRun H enc fx
+      (some ⟨[⟨1, 2, 1, Tree.hash H enc (.leaf ka va 1), PLeaf.hash H enc ⟨kc, H vf, 1⟩⟩], [[]],
+             [⟨kb, H vb, 1⟩, ⟨kc, H vf, 1⟩]⟩) kc [vf] = .error e) ∧
+    (∃ e, absenceOpRun H enc fx
+      (some ⟨[⟨2, 3, 1, [], Tree.hash H enc (.inner 1 2 1 kc (.leaf kb vb 1) (.leaf kc vc 1))⟩],
+             [[⟨1, 2, 1, Tree.hash H enc (.leaf kb vb 1), []⟩]],
+             [⟨ka, H va, 1⟩, ⟨kc, H vc, 1⟩]⟩) kb [] = .error e) ∧
+    (∃ e, valueOpRun H enc fx (some ⟨[⟨0, 1, 1, ka, []⟩], [], [⟨kc, H vf, 1⟩]⟩) kc [vf] = .error e) := by
+  have h1 : ∀ x, (H x = []) = False := fun x => eq_false (hne x)
+  refine ⟨⟨.invalidProof, ?_⟩, ⟨.invalidProof, ?_⟩, ⟨.invalidProof, ?_⟩⟩
+  · simp [valueOpRun, computeRootHash, hfx, validPath, Tree.hash, PLeaf.hash, h1]
+  · simp [absenceOpRun, computeRootHash, hfx, validPath, Tree.hash, h1]
+  · simp [valueOpRun, computeRootHash, hfx, validPath]
+
+/-- **Incompleteness on the code as it is**: `Query(prove=true)` for a key made of 0xFF bytes panics
+(`cpIncr` wraps below the key), on any tree and on the empty store. -/
+theorem query_panics_ff (t : Option Tree) : queryProof H enc Fixes.none t [0xff] = none := by
+  have c : cpIncr [0xff] = [0, 0] := by decide
+  have c' : ([0, 0] : Bytes) ≤ [0xff] := by decide
+  cases t <;> simp [queryProof, getWithProof, getRangeProof, nextKey, Fixes.none, c, c']
+
+/-- a tree with the prefix-related keys `a`, `ab` -/
+def tp (v1 v2 : Bytes) : Tree := .inner 1 2 1 [0x61, 0x62] (.leaf [0x61] v1 1) (.leaf [0x61, 0x62] v2 1)
+
+/-- **Incompleteness on the code as it is**: for the absent key `aa` in `{a, ab}` the prover returns a
+one-leaf proof (`cpIncr(a) = b ≥ cpIncr(aa)`), which the verifier rejects. -/
+theorem absence_incomplete_asis (hne : HNonEmpty H) (v1 v2 : Bytes) :
+    ∃ p, queryProof H enc Fixes.none (some (tp v1 v2)) [0x61, 0x61] = some (none, some p) ∧
+      (∃ e, absenceOpRun H enc Fixes.none (some p) [0x61, 0x61] [] = .error e) ∧
+      (∀ e ∈ (tp v1 v2).leaves, e.1 ≠ [0x61, 0x61]) := by
+  have h1 : ∀ x, (H x = []) = False := fun x => eq_false (hne x)
+  have c1 : cpIncr [0x61, 0x61] = [0x61, 0x62] := by decide
+  have c2 : cpIncr [0x61] = [0x62] := by decide
+  have d1 : ¬ (([0x61, 0x62] : Bytes) ≤ [0x61, 0x61]) := by decide
+  have d2 : ([0x61, 0x61] : Bytes) < [0x61, 0x62] := by decide
+  have d3 : ([0x61, 0x62] : Bytes) ≤ [0x62] := by decide
+  have d4 : ¬ (([0x61, 0x61] : Bytes) ≤ [0x61]) := by decide
+  have d5 : ¬ (([0x61, 0x61] : Bytes) < [0x61]) := by decide
+  have d6 : ([0x61, 0x61] : Bytes) ≠ [0x61] := by decide
+  refine ⟨⟨[⟨1, 2, 1, [], Tree.hash H enc (.leaf [0x61, 0x62] v2 1)⟩], [], [⟨[0x61], H v1, 1⟩]⟩, ?_, ⟨.other, ?_⟩, ?_⟩
+  · simp [queryProof, getWithProof, getRangeProof, nextKey, Fixes.none, c1, c2, d1, d2, d3, d4, tp, pathToLeaf]
+  · simp [absenceOpRun, computeRootHash, Fixes.none, computeHash, verifyAbsence, d5, d6, isRightmost, Tree.hash, h1, absenceLoop]
+  · intro e he; simp [tp, Tree.leaves] at he; rcases he with rfl | rfl
+    · show ([0x61] : Bytes) ≠ [0x61, 0x61]; decide
+    · show ([0x61, 0x62] : Bytes) ≠ [0x61, 0x61]; decide
 end
 end IavlProof
